@@ -1,8 +1,194 @@
-import Magog.Model.Eval
-import Magog.Model.Time
+import Magog.Lemmas.GenPseudo
+import Magog.Lemmas.GenExamples
 
-/-! Property C01 — theorems (see DESIGN §5). -/
+/-! Property C01 (pseudo-legal layer) — the engine model's pseudo-legal move generator `genPseudo`
+    produces exactly the moves allowed by the movement rules of chess.
+
+Setting. `abs p : Spec.Pos` is the chess position a model position denotes, `absMove m : Spec.Move` the
+chess move an engine move denotes (`Magog/AbsMove.lean`), `Inv p` the shared well-formedness invariant
+(`Magog/Lemmas/Inv.lean`). The rules are `Spec.pseudo` (movement rules incl. castling preconditions, no
+king safety) from `Magog/Spec/Chess.lean`.
+
+The ONE documented difference between the engine's pseudo-legal layer and `Spec.pseudo`: `kingGen` already
+drops ordinary king moves (king *steps*, i.e. not castling) onto a square that is attacked by the opponent
+on the current board (it calls `isUnderCheck` on the destination). Such a move is never legal, so nothing
+is lost for the legal layer, but the pseudo-legal list is a subset of `Spec.pseudo`. The exact
+specification of the list is therefore (`Magog/Spec/Pseudo.lean`)
+
+    Spec.pseudo' P m = Spec.pseudo P m && !Spec.kingStepAttacked P m
+    Spec.kingStepAttacked P m = (the man on m.frm is a king) && !Spec.isCastle P m &&
+                                Spec.attacked P.board P.turn.other m.to
+
+All five statements below are FULL (all move classes: pawn pushes / double pushes / captures / en passant /
+promotions, knights, sliders, king steps, castling); none is `_partial`. The killer table `kt` is
+arbitrary in 2–5 (it only influences rankings, `Lemmas/KillerIndep.lean`); only "no panic" needs its
+allocated size. -/
 
 namespace Magog.Props.C01
+open Magog Magog.Model Magog.GenPure Magog.GenPseudo Magog.GenExamples Magog.Count
+
+/-- 1. Generation never panics on a well-formed position: every board index is inside the 128-slot array
+    (including the unguarded king-side pawn capture read, by `Inv.noBackPawn`), no ray walk runs out of
+    its fuel 8, the castling `int8` index expressions stay on the board (a set castling flag implies the
+    king is on its home square, `Inv.castling`), `pieceToScore` is only asked about real pieces. -/
+theorem genPseudo_ok {p : Position} (inv : Inv p) :
+    ∀ kt : Killers, kt.size = Gen.killerMovesMaxPly → ∃ ms, genPseudo kt p = .ok ms := by
+  intro kt hk
+  obtain ⟨ms, h, _⟩ := genPseudo_genList inv hk
+  exact ⟨ms, h⟩
+
+example : Inv startPosition ∧ Killers.empty.size = Gen.killerMovesMaxPly :=
+  ⟨inv_startPosition, Props.C18.killers_empty_size⟩
+
+/-- instantiated: the start position, a middle-game position with en passant and castling available, and
+    a promotion position generate without panic -/
+example : (∃ ms, genPseudo Killers.empty startPosition = .ok ms) ∧
+    (∃ ms, genPseudo Killers.empty c06Witness = .ok ms) ∧
+    (∃ ms, genPseudo Killers.empty c06PromoWitness = .ok ms) :=
+  ⟨genPseudo_ok inv_startPosition _ Props.C18.killers_empty_size,
+   genPseudo_ok inv_c06Witness _ Props.C18.killers_empty_size,
+   genPseudo_ok inv_c06PromoWitness _ Props.C18.killers_empty_size⟩
+
+/-- 2. Soundness: every generated move is allowed by the movement rules (exactly: by `Spec.pseudo'`). -/
+theorem genPseudo_sound {p : Position} {kt : Killers} {ms : List RMove} (inv : Inv p)
+    (h : genPseudo kt p = .ok ms) : ∀ rm ∈ ms, Spec.pseudo' (abs p) (absMove rm.mov) = true := by
+  intro rm hrm
+  have hm := mem_view hrm
+  rw [genPseudo_view_eq inv h] at hm
+  exact ((genList_spec (env_of_inv inv Props.C18.killers_empty_size)).1 _ hm).1
+
+/-- hypotheses satisfiable, conclusion not vacuous: the start position yields 20 moves, all of them allowed -/
+example : ∃ ms, genPseudo Killers.empty startPosition = .ok ms ∧ ms.length = 20 ∧
+    ∀ rm ∈ ms, Spec.pseudo' (abs startPosition) (absMove rm.mov) = true := by
+  obtain ⟨ms, h, hl⟩ := okLen_pos (x := genPseudo Killers.empty startPosition) (by rw [start_len]; decide)
+  exact ⟨ms, h, by rw [hl, start_len], genPseudo_sound inv_startPosition h⟩
+
+/-- the documented difference is real: after 1.e4 f5 2.Qh5+ the king step Ke8-f7 satisfies `Spec.pseudo`
+    but is NOT generated (f7 is attacked by the queen) -/
+example : ∃ ms, genPseudo Killers.empty checkWitness = .ok ms ∧
+    Spec.pseudo (abs checkWitness) ⟨60, 53, none⟩ = true ∧ ¬ ∃ rm ∈ ms, absMove rm.mov = ⟨60, 53, none⟩ := by
+  obtain ⟨ms, h, _⟩ := okLen_pos (x := genPseudo Killers.empty checkWitness) (by rw [checkWitness_len]; decide)
+  refine ⟨ms, h, checkWitness_kf7.1, ?_⟩
+  rintro ⟨rm, hrm, he⟩
+  have := genPseudo_sound inv_checkWitness h rm hrm
+  rw [he, checkWitness_kf7.2.2] at this
+  cases this
+
+/-- 2'. Soundness against the plain movement rules `Spec.pseudo` (the generated list is a subset). -/
+theorem genPseudo_sound_pseudo {p : Position} {kt : Killers} {ms : List RMove} (inv : Inv p)
+    (h : genPseudo kt p = .ok ms) : ∀ rm ∈ ms, Spec.pseudo (abs p) (absMove rm.mov) = true :=
+  fun rm hrm => Spec.pseudo_of_pseudo' (genPseudo_sound inv h rm hrm)
+
+/-- 3. Completeness: every move allowed by the movement rules — except king steps onto a square attacked
+    on the current board, which the engine drops already here — is generated. -/
+theorem genPseudo_complete {p : Position} {kt : Killers} {ms : List RMove} (inv : Inv p)
+    (h : genPseudo kt p = .ok ms) :
+    ∀ sm : Spec.Move, Spec.pseudo (abs p) sm = true → Spec.kingStepAttacked (abs p) sm = false →
+      ∃ rm ∈ ms, absMove rm.mov = sm := by
+  intro sm h1 h2
+  have hs : Spec.pseudo' (abs p) sm = true := by simp [Spec.pseudo', h1, h2]
+  obtain ⟨y, hy, hye⟩ := (genList_spec (env_of_inv inv Props.C18.killers_empty_size)).2.1 sm hs
+  rw [← genPseudo_view_eq inv h] at hy
+  obtain ⟨rm, hrm, rfl⟩ := List.mem_map.1 hy
+  exact ⟨rm, hrm, hye⟩
+
+/-- instantiated: e2-e4 is generated in the start position; a5xb6 e.p. and O-O in `c06Witness`; a7xb8=N in
+    `c06PromoWitness` -/
+example : ∃ ms, genPseudo Killers.empty startPosition = .ok ms ∧ ∃ rm ∈ ms, absMove rm.mov = ⟨12, 28, none⟩ := by
+  obtain ⟨ms, h⟩ := genPseudo_ok inv_startPosition _ Props.C18.killers_empty_size
+  exact ⟨ms, h, genPseudo_complete inv_startPosition h _ start_e2e4.1 start_e2e4.2.1⟩
+
+example : ∃ ms, genPseudo Killers.empty c06Witness = .ok ms ∧
+    (∃ rm ∈ ms, absMove rm.mov = ⟨32, 41, none⟩) ∧ (∃ rm ∈ ms, absMove rm.mov = ⟨4, 6, none⟩) := by
+  obtain ⟨ms, h⟩ := genPseudo_ok inv_c06Witness _ Props.C18.killers_empty_size
+  exact ⟨ms, h, genPseudo_complete inv_c06Witness h _ c06Witness_moves.1 c06Witness_moves.2.1,
+    genPseudo_complete inv_c06Witness h _ c06Witness_moves.2.2.2.1 c06Witness_moves.2.2.2.2.1⟩
+
+example : ∃ ms, genPseudo Killers.empty c06PromoWitness = .ok ms ∧
+    ∃ rm ∈ ms, absMove rm.mov = ⟨48, 57, some .knight⟩ := by
+  obtain ⟨ms, h⟩ := genPseudo_ok inv_c06PromoWitness _ Props.C18.killers_empty_size
+  exact ⟨ms, h, genPseudo_complete inv_c06PromoWitness h _ c06PromoWitness_moves.1 c06PromoWitness_moves.2.1⟩
+
+/-- 2+3. The generated moves are exactly the moves satisfying `Spec.pseudo'`. -/
+theorem genPseudo_exact {p : Position} {kt : Killers} {ms : List RMove} (inv : Inv p)
+    (h : genPseudo kt p = .ok ms) (sm : Spec.Move) :
+    (∃ rm ∈ ms, absMove rm.mov = sm) ↔ Spec.pseudo' (abs p) sm = true := by
+  constructor
+  · rintro ⟨rm, hrm, rfl⟩
+    exact genPseudo_sound inv h rm hrm
+  · intro hs
+    simp only [Spec.pseudo', Bool.and_eq_true, Bool.not_eq_true'] at hs
+    exact genPseudo_complete inv h sm hs.1 hs.2
+
+/-- The documented difference is harmless: every LEGAL move of the rules satisfies `Spec.pseudo'` (a king
+    step onto a square attacked on the current board leaves the king in check: `KingStep.kingStep_inCheck`),
+    hence `Spec.legal P m = Spec.pseudo' P m && !inCheck (apply P m) …` on well-formed positions. -/
+theorem legal_pseudo' {p : Position} (inv : Inv p) (sm : Spec.Move)
+    (h : Spec.legal (abs p) sm = true) : Spec.pseudo' (abs p) sm = true :=
+  GenPseudo.legal_pseudo' (env_of_inv inv Props.C18.killers_empty_size) h
+
+/-- 3'. Consequently every legal move of the rules is in the generated pseudo-legal list. -/
+theorem genPseudo_complete_legal {p : Position} {kt : Killers} {ms : List RMove} (inv : Inv p)
+    (h : genPseudo kt p = .ok ms) :
+    ∀ sm : Spec.Move, Spec.legal (abs p) sm = true → ∃ rm ∈ ms, absMove rm.mov = sm :=
+  fun sm hl => (genPseudo_exact inv h sm).2 (legal_pseudo' inv sm hl)
+
+example : ∃ ms, genPseudo Killers.empty startPosition = .ok ms ∧ ∃ rm ∈ ms, absMove rm.mov = ⟨12, 28, none⟩ := by
+  obtain ⟨ms, h⟩ := genPseudo_ok inv_startPosition _ Props.C18.killers_empty_size
+  exact ⟨ms, h, genPseudo_complete_legal inv_startPosition h _ start_e2e4_legal⟩
+
+/-- 4. Each move appears once: the list of generated chess moves has no duplicates (distinct origins from
+    the duplicate-free piece lists, distinct targets per origin, distinct promotion pieces). -/
+theorem genPseudo_nodup {p : Position} {kt : Killers} {ms : List RMove} (inv : Inv p)
+    (h : genPseudo kt p = .ok ms) : (ms.map fun rm => absMove rm.mov).Nodup := by
+  have := (genList_spec (env_of_inv inv Props.C18.killers_empty_size)).2.2
+  rw [← genPseudo_view_eq inv h, List.map_map] at this
+  exact this
+
+example : ∃ ms, genPseudo Killers.empty c06Witness = .ok ms ∧ ms.length = 35 ∧
+    (ms.map fun rm => absMove rm.mov).Nodup := by
+  obtain ⟨ms, h, hl⟩ := okLen_pos (x := genPseudo Killers.empty c06Witness) (by rw [c06Witness_len]; decide)
+  exact ⟨ms, h, by rw [hl, c06Witness_len], genPseudo_nodup inv_c06Witness h⟩
+
+/-- 5. Auxiliary fields of every generated move: the `tactical` flag is the rules' "capture (incl. en
+    passant) or promotion"; the `ep` field is the skipped square (as a 0x88 square) exactly when the move
+    is a pawn double push — `(Spec.apply P m).ep` is `some skipped` for a double push and `none` otherwise
+    — and `InvalidSq` otherwise. -/
+theorem genPseudo_aux {p : Position} {kt : Killers} {ms : List RMove} (inv : Inv p)
+    (h : genPseudo kt p = .ok ms) : ∀ rm ∈ ms,
+      rm.tactical = Spec.isTactical (abs p) (absMove rm.mov) ∧
+      rm.mov.ep = (match (Spec.apply (abs p) (absMove rm.mov)).ep with
+                   | some e => to88 e
+                   | none => InvalidSq) := by
+  intro rm hrm
+  have hm := mem_view hrm
+  rw [genPseudo_view_eq inv h] at hm
+  obtain ⟨h1, h2, h3⟩ := ((genList_spec (env_of_inv inv Props.C18.killers_empty_size)).1 _ hm).2
+  refine ⟨h1, ?_⟩
+  simp only at h2 h3
+  rw [← h3]
+  rcases h2 with h2 | h2
+  · rw [h2, absEp_invalid]
+  · simp only [absEp, (Geo.mem_sq88.1 h2).2, if_true]
+    exact (Atk.to88_to64 h2).symm
+
+/-- instantiated: the generated e2-e4 is quiet and carries e3 as skipped square; the generated a5xb6 e.p.
+    is tactical and carries `InvalidSq` -/
+example : ∃ ms, genPseudo Killers.empty startPosition = .ok ms ∧
+    ∃ rm ∈ ms, absMove rm.mov = ⟨12, 28, none⟩ ∧ rm.tactical = false ∧ rm.mov.ep = Gen.E3 := by
+  obtain ⟨ms, h⟩ := genPseudo_ok inv_startPosition _ Props.C18.killers_empty_size
+  obtain ⟨rm, hrm, he⟩ := genPseudo_complete inv_startPosition h _ start_e2e4.1 start_e2e4.2.1
+  obtain ⟨a1, a2⟩ := genPseudo_aux inv_startPosition h rm hrm
+  rw [he] at a1 a2
+  rw [start_e2e4.2.2.2.1] at a2
+  exact ⟨ms, h, rm, hrm, he, by rw [a1, start_e2e4.2.2.1], by rw [a2]; exact start_e2e4.2.2.2.2⟩
+
+example : ∃ ms, genPseudo Killers.empty c06Witness = .ok ms ∧
+    ∃ rm ∈ ms, absMove rm.mov = ⟨32, 41, none⟩ ∧ rm.tactical = true := by
+  obtain ⟨ms, h⟩ := genPseudo_ok inv_c06Witness _ Props.C18.killers_empty_size
+  obtain ⟨rm, hrm, he⟩ := genPseudo_complete inv_c06Witness h _ c06Witness_moves.1 c06Witness_moves.2.1
+  obtain ⟨a1, _⟩ := genPseudo_aux inv_c06Witness h rm hrm
+  rw [he] at a1
+  exact ⟨ms, h, rm, hrm, he, by rw [a1, c06Witness_moves.2.2.1]⟩
 
 end Magog.Props.C01
